@@ -97,7 +97,7 @@ pub fn c08(o: &Opts) -> Outcome {
     {
         let recs: Vec<Vec<u8>> = vec![b"ACGTACGTTTGACCAGG".to_vec(), b"GGATCCATTGAC".to_vec(), b"ACGTACGTTTGACCAGG".to_vec(), b"TTGACCATGG".to_vec(), b"AC".to_vec()];
         cases += 1;
-        if let Some(w) = with_gzm(|| c08_batch(&recs, 5, 2, 4, false, 2, 6.0)) { return Outcome { cases, witness: Some(w) }; }
+        for kind in KINDS { if let Some(w) = with_kind(kind, &recs, || c08_batch(&recs, 5, 2, 4, false, 2, 6.0)) { return Outcome { cases, witness: Some(w) }; } }
         let recs: Vec<Vec<u8>> = vec![b"AAAAAAAA".to_vec(), b"NNNNNNNN".to_vec(), b"AAAAAAAA".to_vec()];
         for (threads, mem) in [(1usize, 5e-9f64), (1, 1e-8), (2, 5e-9)] {
             cases += 1;
